@@ -59,7 +59,7 @@ using namespace xv;
 static char*  g_arena = nullptr;
 static size_t g_arenaSize = 0, g_arenaUsed = 0;
 static void arenaInit() {
-    g_arenaSize = (size_t)1 << 31;
+    g_arenaSize = (size_t)1 << 27;
     void* want = (void*)0x600000000000ULL;
     void* p = mmap(want, g_arenaSize, PROT_READ | PROT_WRITE, MAP_PRIVATE | MAP_ANONYMOUS | MAP_NORESERVE | MAP_FIXED_NOREPLACE, -1, 0);
     if (p == MAP_FAILED) p = mmap(nullptr, g_arenaSize, PROT_READ | PROT_WRITE, MAP_PRIVATE | MAP_ANONYMOUS | MAP_NORESERVE, -1, 0);
